@@ -156,6 +156,16 @@ func H_c13(p []int) {
 		case 2:
 			taken = append([]byte{}, b1.TakeRedactableBytes()...)
 		}
+		vAssert(b1.GetMode() == fresh.GetMode(), "C13/mode-pristine")
+		vAssert(b1.Len() == 0, "C13/empty-after-reset")
+		{
+			// a direct write with no SetMode first: same as on a new object
+			c1, c2 := b1, fresh
+			probe := []byte("d‹")
+			c1.Write(probe)
+			c2.Write(probe)
+			vAssert(bytesEq([]byte(c1.RedactableString()), []byte(c2.RedactableString())), "C13/direct-write-pristine")
+		}
 		for _, o := range ops[pos:] {
 			applyManual(&b1, o)
 			applyManual(&fresh, o)
